@@ -40,9 +40,10 @@ var simsFor = map[string][]simWeight{}
 
 func init() {
 	register(libSim{})
-	for _, p := range []string{"C01", "C02", "C03", "C06"} {
+	for _, p := range []string{"C01", "C02", "C03"} {
 		simsFor[p] = []simWeight{{"lib", 1}}
 	}
+	simsFor["C06"] = []simWeight{{"lib", 3}, {"cli", 1}}
 	simsFor["C05"] = []simWeight{{"lib", 1}}
 	register(cliSim{})
 	for _, p := range []string{"C08", "C09", "C10", "C11", "C18", "C20"} {
